@@ -128,6 +128,11 @@ def data(kind, which=0):
         df = pandas.DataFrame({"A": pandas.Series([r[0] for r in rows], dtype=object),
                                "B": pandas.Series([r[1] for r in rows], dtype=object),
                                "num": [r[2] for r in rows]})
+        if which == 2:
+            # other categorical columns than the first frame: A is numeric here, C is new, B is gone
+            df = pandas.DataFrame({"A": [1.0, 2.0, 3.0, 4.0],
+                                   "C": pandas.Series(["k", "l", "k", "m"], dtype=object),
+                                   "num": [0.5, 1.5, 2.5, 3.5]})
         return {"X": df}
     if kind == "text":
         c = [["the cat sat", "a cat and a dog", "dog the dog", ""], ["blue sky", "green grass blue", "sky"]][which % 2]
@@ -240,7 +245,8 @@ def catalogue():
     add("CategoriesToIntegers", "cat", {
         "A": lambda: M.CategoriesToIntegers(columns=["A", "B"]),
         "B": lambda: M.CategoriesToIntegers(columns=["A"], single=True, skip_errors=True),
-        "C": lambda: M.CategoriesToIntegers(columns="A")})
+        "C": lambda: M.CategoriesToIntegers(columns="A"),
+        "D": lambda: M.CategoriesToIntegers()})
     for nm in ("TraceableCountVectorizer", "TraceableTfidfVectorizer"):
         add(nm, "text", {
             "A": (lambda nm=nm: getattr(M, nm)()),
